@@ -326,8 +326,25 @@ def main(mod, argv=None):
             bad = [i for i in idxs if got.get(i) != agg["digest_of"][i]]
             fresh_ok = not bad
             if bad:
-                harness_errors.append("determinism self-check failed (fresh interpreter, other PYTHONHASHSEED) for run indices %r\n%s"
-                                      % (bad[:8], r.stderr[-2000:]))
+                # is it the harness, or does the library under test itself depend on the hash seed (e.g. output
+                # ordered by a set)?  Replays are pinned to the hash seed of this process: repeat under it.
+                env2 = dict(env)
+                env2["PYTHONHASHSEED"] = os.environ.get("PYTHONHASHSEED", "0")
+                r2 = subprocess.run([CHECK, mod.PROP, "--tier", a.tier, "--digests", ",".join(map(str, bad))],
+                                    capture_output=True, text=True, env=env2, timeout=600)
+                got2 = {}
+                for line in r2.stdout.splitlines():
+                    if line.startswith("DIGEST "):
+                        _, i, d = line.split()
+                        got2[int(i)] = d
+                if all(got2.get(i) == agg["digest_of"][i] for i in bad):
+                    fresh_ok = "same hash seed only"
+                    print("NOTE: %d of %d runs produce a different event log under another PYTHONHASHSEED but the same one "
+                          "in a fresh interpreter under this one: the code under test depends on the hash seed "
+                          "(replays are pinned to PYTHONHASHSEED=%s)" % (len(bad), len(idxs), env2["PYTHONHASHSEED"]))
+                else:
+                    harness_errors.append("determinism self-check failed (fresh interpreter) for run indices %r\n%s"
+                                          % (bad[:8], r.stderr[-2000:]))
         except Exception:
             harness_errors.append("fresh-interpreter determinism check crashed: " + traceback.format_exc(limit=3))
 
